@@ -4,14 +4,14 @@ import json
 from harness import fml, shrink
 from harness.common import parse_fields
 from harness.runner import Check, offline_case, online_case, need_vars, expect_vals
-from harness.modular import gen_modular, modular_spec
+from harness.modular import gen_modular, modular_spec, inlined_spec
 
 
 class C09(Check):
     PID = 'C09'
     SHRINK = False
     RULE = ('seeded random formulas decomposed into 1-4 named sub-specifications (nested, referenced several times, stateful) and declared constants, '
-            'given through add_sub_spec or as several assertions of one text; modular and inlined forms through the discrete offline monitor, the online monitor '
+            'given through add_sub_spec or as several assertions of one text (20% of the programs with bounded operators spell the bounds with explicit units); modular and inlined forms through the discrete offline monitor, the online monitor '
             '(past-time) and the pastified online monitor (bounded future); outputs must be identical and equal to the model; '
             'non-trivial = a stateful sub-specification is referenced at least twice or nested; distinct by (program, data)')
 
@@ -40,7 +40,7 @@ class C09(Check):
         used = fml.fvars(c['f'])
         ups = [['update', k, [[fml.VARS[i], c['cols'][i][k]] for i in used]] for k in range(c['n'])]
         base = {'vars': fml.VARS[:c['nv']]}
-        inl = {'spec': 'out = ' + fml.to_text(c['f'])}
+        inl = inlined_spec(c)
         out = [dict(base, monitor='discrete-offline', calls=[['evaluate', data]], **ms),
                dict(base, monitor='discrete-offline', calls=[['evaluate', data]], **inl)]
         past = fml.has_future(c['f'])
